@@ -116,6 +116,24 @@ func driveC10(c *Ctx) {
 		return len(log.URIs)
 	}
 	n := run(nil, "healthy")
+	// malformed or unusual BaseURI options: an error is fine, a panic or hang is not
+	for _, b := range []string{"http://a.test/x.json#frag", "::bad", "relative/path.json", "urn:x:base", "http://[::1", "file:///tmp/x.json", "#"} {
+		if c.W(3) != 0 {
+			continue
+		}
+		log := &LoaderLog{}
+		var res *jsonschema.Resolved
+		var err error
+		r := OpBudget(budget, func() {
+			res, err = root.Resolve(&jsonschema.ResolveOptions{BaseURI: b, Loader: u.LoaderFor(c, nil, log)})
+		})
+		c.CheckOp(fmt.Sprintf("Resolve with BaseURI %q", b), r)
+		c.Out("BaseURI %q: %v err=%v", b, r, err != nil)
+		if !r.Panicked && err == nil && res != nil {
+			use(res, "BaseURI "+b)
+		}
+		c.Probe("unusual-base-uri")
+	}
 	if deep {
 		run(&FaultPlan{FailCall: 30}, "call 30 errs")
 		run(&FaultPlan{Special: map[int]string{45: "nilnil"}}, "call 45 returns (nil,nil)")
